@@ -190,7 +190,8 @@ extern int          qt_nanosleep(const struct timespec *, struct timespec *);
 static const char *scratch = "/var/tmp";
 static int         uniq    = 0;
 
-static void on_alarm(int s) { const char m[] = "TIMEOUT\n"; (void)!syscall(SYS_write, 1, m, sizeof(m) - 1); _exit(3); }
+static volatile int stage = 0;
+static void on_alarm(int s) { char m[64]; int n = snprintf(m, sizeof m, "TIMEOUT stage=%d\n", stage); (void)!syscall(SYS_write, 1, m, n); _exit(3); }
 
 static uint64_t sm_next(uint64_t *s)
 {
@@ -499,26 +500,35 @@ static aligned_t blocked_reader(void *a)
     return 0;
 }
 
-static void run_ticker(scen_t *s)
+/* runs as a task of its own: the main task (which sherwood only runs on worker 0 of shepherd 0) must not be woken while a
+ * perpetually yielding task is runnable */
+static aligned_t run_ticker(void *arg)
 {
+    scen_t *s = arg;
     aligned_t r1, r2; if (pipe(tick_pipe)) exit(4);
     tick_s = s; ticker_count = 0; ticker_stop = 0; reader_done = 0;
     uint64_t h0 = handoffs;
     qthread_fork(ticker_task, NULL, &r1);
     qthread_fork(blocked_reader, NULL, &r2);
+    stage = 1;
     while (handoffs == h0) qthread_yield();
     aligned_t c0 = ticker_count;
+    stage = 2;
     while (ticker_count < c0 + (aligned_t)s->a[0]) qthread_yield();
+    stage = 3;
     int still_blocked = !reader_done;
     aligned_t c1 = ticker_count;
     (void)!syscall(SYS_write, tick_pipe[1], "data", 4);
     qthread_readFF(NULL, &r2);
+    stage = 4;
     ticker_stop = 1;
     qthread_readFF(NULL, &r1);
+    stage = 5;
     s->ret[0] = 4;
     snprintf(s->obs[0], sizeof s->obs[0], "progress=1,still_blocked=1");
     snprintf(s->obs[1], sizeof s->obs[1], "progress=%d,still_blocked=%d", c1 >= c0 + (aligned_t)s->a[0], still_blocked);
     close(tick_pipe[0]); close(tick_pipe[1]);
+    return 0;
 }
 
 /* ------------------------------------------------------------------ long concurrent sequences */
@@ -564,6 +574,16 @@ static aligned_t multi_task(void *a)
     return 0;
 }
 
+typedef struct { int nt; mt_t *ms; } join_t;
+static aligned_t joiner_task(void *a)   /* the main task is woken only when everything is finished */
+{
+    join_t *j = a; aligned_t *rs = calloc(j->nt, sizeof *rs);
+    for (int t = 0; t < j->nt; t++) qthread_fork(multi_task, &j->ms[t], &rs[t]);
+    for (int t = 0; t < j->nt; t++) qthread_readFF(NULL, &rs[t]);
+    free(rs);
+    return 0;
+}
+
 /* ------------------------------------------------------------------ main */
 static void dump_log(void)
 {
@@ -593,23 +613,22 @@ int main(int argc, char **argv)
             scen_t *s = calloc(1, sizeof *s); aligned_t r;
             if (sscanf(line + 1, "%d %d %ld %ld %ld %ld %ld %ld", &s->idx, &s->kind, &s->a[0], &s->a[1], &s->a[2], &s->a[3], &s->a[4], &s->a[5]) < 2) { printf("ERR\n"); continue; }
             alarm(30);
-            if (s->kind == W_TICKER) { run_ticker(s); }
-            else { qthread_fork(scen_task, s, &r); qthread_readFF(NULL, &r); }
+            qthread_fork(s->kind == W_TICKER ? run_ticker : scen_task, s, &r); qthread_readFF(NULL, &r);
             alarm(0);
             printf("r %d %d D %ld %d %s W %ld %d %s X %d\n", s->idx, s->kind, s->ret[0], s->err[0], s->obs[0][0] ? s->obs[0] : "-", s->ret[1], s->err[1], s->obs[1][0] ? s->obs[1] : "-", s->returns);
             fflush(stdout); free(s);
         } else if (line[0] == 'M') {   /* M idxbase ntasks ncalls seed watchdog */
             int nt, nc, wd; unsigned long long seed;
             if (sscanf(line + 1, "%d %d %d %llu %d", &m_idx_base, &nt, &nc, &seed, &wd) != 5) { printf("ERR\n"); continue; }
-            mt_t *ms = calloc(nt, sizeof *ms); aligned_t *rs = calloc(nt, sizeof *rs);
+            mt_t *ms = calloc(nt, sizeof *ms); aligned_t jr; join_t jn = { nt, ms };
             alarm(wd);
-            for (int t = 0; t < nt; t++) { ms[t].t = t; ms[t].ncalls = nc; ms[t].seed = seed * 1000 + t; qthread_fork(multi_task, &ms[t], &rs[t]); }
-            for (int t = 0; t < nt; t++) qthread_readFF(NULL, &rs[t]);
+            for (int t = 0; t < nt; t++) { ms[t].t = t; ms[t].ncalls = nc; ms[t].seed = seed * 1000 + t; }
+            qthread_fork(joiner_task, &jn, &jr); qthread_readFF(NULL, &jr);
             alarm(0);
             long mism = 0, rets = 0; int fe = 1, pe = 1; const char *first = "-";
             for (int t = 0; t < nt; t++) { if (ms[t].mism && !mism) first = ms[t].first; mism += ms[t].mism; rets += ms[t].returns; fe &= ms[t].files_equal; pe &= ms[t].pipes_equal; }
             printf("m %d %d calls=%ld mism=%ld files_equal=%d pipes_equal=%d first=%s\n", nt, nc, rets, mism, fe, pe, first);
-            fflush(stdout); free(ms); free(rs);
+            fflush(stdout); free(ms);
         } else if (line[0] == 'L') {
             dump_log(); fflush(stdout);
         }
